@@ -8,7 +8,7 @@ from __future__ import annotations
 import ast
 import re
 
-from extract import SRC, ExtractError, class_def, const_eval, func_def, lean_str, module_assigns, parse
+from extract import SRC, ExtractError, class_def, func_def, lean_str, module_assigns, parse
 
 PEP508_RULES = {
     "start": "_requirement",
@@ -58,8 +58,18 @@ def gen(lines: list[str]) -> None:
     u = parse("packages/utils/utils.py")
     assigns = module_assigns(u)
     env: dict[str, object] = {}
+
+    def tup(node: ast.AST) -> tuple[str, ...]:
+        if isinstance(node, ast.Tuple) and all(isinstance(e, ast.Constant) and isinstance(e.value, str) for e in node.elts):
+            return tuple(e.value for e in node.elts)  # type: ignore[attr-defined]
+        if isinstance(node, ast.Name) and node.id in env:
+            return env[node.id]  # type: ignore[return-value]
+        if isinstance(node, ast.BinOp) and isinstance(node.op, ast.Add):
+            return tup(node.left) + tup(node.right)
+        raise ExtractError("packages/utils/utils.py: archive extension tuples have an unexpected shape")
+
     for k in ("BZ2_EXTENSIONS", "XZ_EXTENSIONS", "ZIP_EXTENSIONS", "TAR_EXTENSIONS", "ARCHIVE_EXTENSIONS"):
-        env[k] = const_eval(assigns[k], env)
+        env[k] = tup(assigns[k])
     arch = list(env["ARCHIVE_EXTENSIONS"])  # type: ignore[call-overload]
     lines.append("/-- packages/utils/utils.py ARCHIVE_EXTENSIONS -/")
     lines.append("def archiveExtensions : List String := [" + ", ".join(lean_str(s) for s in arch) + "]")
